@@ -9,19 +9,19 @@
   and every ordered field (so ℚ — the driver's instance —, the dyadic rationals inside ℚ, and ℝ at once).
   Float rounding is outside these theorems (DESIGN 3.3); the float sub-stream of `corr_normalize` covers it.
 
-  The repaired `_normalize_icg` (commit "fix: do not scale an additive game by its rounding residue …") does not
-  divide when `np.isclose(surplus + Σ, Σ, rtol = 1e-9, atol = 0)`, i.e. (exact arithmetic) when
-  `|w(N)| ≤ rtol · |Σ_i v{i}|` (`Additive`).  `rtol` is a parameter of the model and of every theorem here.
-  Consequences, all proved below:
-    * outside the tolerance window — `w(N) = 0 ∨ rtol·|Σ_i v{i}| < w(N)` — the property holds as before
-      (`normalize_property`, `denormalize_normalize`); with `rtol = 0` the window is empty and the old
-      unconditional statements are corollaries (`normalize_property_exact`, `denormalize_normalize_exact`);
-    * inside the window — `0 < w(N) ≤ rtol·|Σ_i v{i}|` — the code deliberately returns the unscaled `w`
-      (`window_behaviour`): singletons 0, superadditive, values in `[0, w(N)] ⊆ [0, rtol·|Σ_i v{i}|]`, grand
-      coalition `w(N)`, which is 1 only when `w(N) = 1`; and `denormalize_game` with the returned information
-      `(w(N), singletons)` yields `v c + w c · (w(N) − 1)`, so it restores the game iff `w(N) = 1`
-      (`denormalize_window`, and a concrete failing instance with the code's own `rtol`): the round trip is
-      NOT exact inside the window.
+  The repaired `_normalize_icg` (commit "fix: an additive game normalises to zero instead of being scaled by its
+  rounding residue") treats a game as additive when `np.isclose(surplus + Σ, Σ, rtol = 1e-9, atol = 0)`, i.e.
+  (exact arithmetic) when `|w(N)| ≤ rtol · |Σ_i v{i}|` (`Additive`), and then stores the identically-zero game.
+  `rtol` is a parameter of the model and of every theorem here.  Consequences, all proved below:
+    * for EVERY `rtol` the normal form of a superadditive game has singletons 0, values in [0,1], is superadditive,
+      and its grand coalition is 1 unless the game is (exactly or up to `rtol`) additive, in which case the normal
+      form is identically 0 (`normalize_property`, `normalize_property_tol`); with `rtol = 0` this is the old
+      statement (`normalize_property_exact`);
+    * inside the tolerance window `0 < w(N) ≤ rtol·|Σ_i v{i}|` the normal form is identically 0 although the game
+      is not additive (`window_behaviour`): what is discarded is `w`, with `0 ≤ w c ≤ w(N) ≤ rtol·|Σ_i v{i}|`;
+    * `denormalize_game` with the returned information restores the game exactly outside the window
+      (`denormalize_normalize`, `denormalize_normalize_exact`) and yields `v c − w c` inside it
+      (`denormalize_window`), so in every case `|restored − v| ≤ rtol·|Σ_i v{i}|` (`denormalize_normalize_bound`);
     * a graph game has zero singletons, so for its table the window is empty whatever `rtol` is.
 -/
 import ICG.Model.Normalize
@@ -200,22 +200,39 @@ omit [DecidableEq α] in
 theorem closedAdditive_iff_Additive (n : Nat) (rtol : α) (v : Nat → α) :
     closedAdditive n rtol v = true ↔ Additive n rtol v := closedAdditive_iff n rtol v
 
+/-- additive branch of the closed form: identically zero -/
+theorem normVal_of_additive {n : Nat} {rtol : α} {v : Nat → α} (ha : Additive n rtol v) (c : Nat) :
+    normVal n rtol v c = 0 := by
+  have : closedAdditive n rtol v = true := (closedAdditive_iff_Additive n rtol v).mpr ha
+  simp only [normVal, this, if_true]
+
 /-- scaling branch of the closed form -/
 theorem normVal_of_scale {n : Nat} {rtol : α} {v : Nat → α} (hg : closedW v (grand n) ≠ 0)
     (ha : ¬ Additive n rtol v) (c : Nat) : normVal n rtol v c = closedW v c / closedW v (grand n) := by
   have : ¬ closedAdditive n rtol v = true := fun h => ha ((closedAdditive_iff_Additive n rtol v).mp h)
   simp [normVal, hg, this]
 
-/-- no-scaling branch of the closed form -/
-theorem normVal_of_noscale {n : Nat} {rtol : α} {v : Nat → α}
-    (h : closedW v (grand n) = 0 ∨ Additive n rtol v) (c : Nat) : normVal n rtol v c = closedW v c := by
-  have : closedW v (grand n) = 0 ∨ closedAdditive n rtol v = true :=
-    h.imp id (closedAdditive_iff_Additive n rtol v).mpr
-  simp only [normVal, if_pos this]
+/-- zero-surplus branch of the closed form (reached only when `rtol·|Σ| < 0`) -/
+theorem normVal_of_zero {n : Nat} {rtol : α} {v : Nat → α} (hg : closedW v (grand n) = 0)
+    (ha : ¬ Additive n rtol v) (c : Nat) : normVal n rtol v c = closedW v c := by
+  have : ¬ closedAdditive n rtol v = true := fun h => ha ((closedAdditive_iff_Additive n rtol v).mp h)
+  simp [normVal, hg, this]
+
+omit [DecidableLE α] [DecidableEq α] in
+/-- `game.set_values(np.zeros(2**n, Value))` on a complete table -/
+theorem setValues_zeros {n : Nat} (t : Table α) (hf : FullOn n t) :
+    ∃ t', t.setValues (List.replicate (2 ^ t.n) 0) none = .ok t' ∧ FullOn n t' ∧ ∀ c, c < 2 ^ n → t'.lo c = 0 := by
+  have hlen : (List.replicate (2 ^ t.n) (0 : α)).length = t.rows := by simp [Table.rows]
+  simp only [Table.setValues, hlen, if_true]
+  refine ⟨_, rfl, ⟨hf.n_eq, ?_, ?_⟩, ?_⟩
+  · intro c hc; simp [Table.rows, hf.n_eq, hc]
+  · intro c hc; simp [Table.rows, hf.n_eq, hc]
+  · intro c hc; simp [Table.rows, hf.n_eq, hc]
 
 /-- **in-place = closed form.**  On a complete table the repaired `_normalize_icg` succeeds (`_get_norminfo`,
-    the loop and the final read never raise) and leaves, in both bound columns, `normVal`:
-    `w c = v c − Σ_{i∈c} v{i}`, divided by `w(N)` unless `w(N) = 0` or `|w(N)| ≤ rtol·|Σ_i v{i}|`. -/
+    the loop, the read of the grand coalition and `set_values` never raise) and leaves, in both bound columns,
+    `normVal`: identically 0 when `|w(N)| ≤ rtol·|Σ_i v{i}|`; otherwise `w c = v c − Σ_{i∈c} v{i}`, divided by
+    `w(N)` unless that is 0. -/
 theorem normalizeIcg_closed {n : Nat} (rtol : α) (t : Table α) (hf : FullOn n t) :
     ∃ t', normalizeIcg rtol t = .ok t' ∧ FullOn n t' ∧ ∀ c, c < 2 ^ n → t'.lo c = normVal n rtol t.lo c := by
   obtain ⟨t1, h1, hf1, hW, hg⟩ := subtraction_phase t hf
@@ -224,29 +241,36 @@ theorem normalizeIcg_closed {n : Nat} (rtol : α) (t : Table α) (hf : FullOn n 
   simp only [bind, Except.bind]
   rw [h1]
   simp only [hg, isAdditive_closed]
-  by_cases hz : closedW t.lo (grand n) = 0 ∨ closedAdditive n rtol t.lo = true
-  · refine ⟨t1, by simp only [if_pos hz]; rfl, hf1, ?_⟩
+  by_cases ha : closedAdditive n rtol t.lo = true
+  · obtain ⟨t0, h0, hf0, hz⟩ := setValues_zeros t1 hf1
+    refine ⟨t0, by simp only [ha, if_true]; exact h0, hf0, ?_⟩
     intro c hc
-    simp only [normVal, if_pos hz, hW c hc]
-  · refine ⟨divColumns t1 (closedW t.lo (grand n)), by simp only [if_neg hz]; rfl,
-      ⟨hf1.n_eq, hf1.known, ?_⟩, ?_⟩
-    · intro c hc
-      simp [divColumns, hf1.hi_eq c hc]
-    · intro c hc
-      have : c < t1.rows := by simp [Table.rows, hf1.n_eq, hc]
-      simp [divColumns, normVal, if_neg hz, hW c hc, this]
+    simp only [normVal, ha, if_true, hz c hc]
+  · by_cases hz : closedW t.lo (grand n) = 0
+    · refine ⟨t1, by simp only [ha, hz, if_true]; rfl, hf1, ?_⟩
+      intro c hc
+      simp [normVal, ha, hz, hW c hc]
+    · refine ⟨divColumns t1 (closedW t.lo (grand n)), by simp only [ha, if_neg hz]; rfl,
+        ⟨hf1.n_eq, hf1.known, ?_⟩, ?_⟩
+      · intro c hc
+        simp [divColumns, hf1.hi_eq c hc]
+      · intro c hc
+        have : c < t1.rows := by simp [Table.rows, hf1.n_eq, hc]
+        simp [divColumns, normVal, ha, hz, hW c hc, this]
 
-/-- the same, branch by branch: with `w = v − Σ singletons` the result is `w / w(N)` when `w(N) ≠ 0` and the game
-    is not additive up to `rtol`, and `w` itself otherwise. -/
+/-- the same, branch by branch: with `w = v − Σ singletons` the result is identically 0 when the game is additive
+    up to `rtol`; otherwise it is `w / w(N)` when `w(N) ≠ 0` and `w` itself when `w(N) = 0`. -/
 theorem normalizeIcg_cases {n : Nat} (rtol : α) (t : Table α) (hf : FullOn n t) :
     ∃ t', normalizeIcg rtol t = .ok t' ∧ FullOn n t' ∧
-      (closedW t.lo (grand n) ≠ 0 → ¬ Additive n rtol t.lo →
+      (Additive n rtol t.lo → ∀ c, c < 2 ^ n → t'.lo c = 0) ∧
+      (¬ Additive n rtol t.lo → closedW t.lo (grand n) ≠ 0 →
         ∀ c, c < 2 ^ n → t'.lo c = closedW t.lo c / closedW t.lo (grand n)) ∧
-      (closedW t.lo (grand n) = 0 ∨ Additive n rtol t.lo → ∀ c, c < 2 ^ n → t'.lo c = closedW t.lo c) := by
+      (¬ Additive n rtol t.lo → closedW t.lo (grand n) = 0 → ∀ c, c < 2 ^ n → t'.lo c = closedW t.lo c) := by
   obtain ⟨t', hok, hf', hlo⟩ := normalizeIcg_closed rtol t hf
   exact ⟨t', hok, hf',
-    fun hg ha c hc => by rw [hlo c hc, normVal_of_scale hg ha],
-    fun h c hc => by rw [hlo c hc, normVal_of_noscale h]⟩
+    fun ha c hc => by rw [hlo c hc, normVal_of_additive ha],
+    fun ha hg c hc => by rw [hlo c hc, normVal_of_scale hg ha],
+    fun ha hg c hc => by rw [hlo c hc, normVal_of_zero hg ha]⟩
 
 end guard
 
@@ -337,169 +361,172 @@ omit [IsStrictOrderedRing α] [DecidableLE α] [DecidableEq α] in
 theorem not_additive_of_lt (hlt : rtol * |∑ i ∈ range n, v (2 ^ i)| < closedW v (grand n)) :
     ¬ Additive n rtol v := fun ha => absurd (lt_of_lt_of_le hlt (le_abs_self _)) (not_lt.mpr ha)
 
-omit [IsStrictOrderedRing α] in
-/-- outside the tolerance window the closed form is the exact normalisation … -/
-theorem normVal_out_of_window
-    (how : closedW v (grand n) = 0 ∨ rtol * |∑ i ∈ range n, v (2 ^ i)| < closedW v (grand n)) (c : Nat) :
-    (closedW v (grand n) = 0 → normVal n rtol v c = closedW v c) ∧
-    (closedW v (grand n) ≠ 0 → normVal n rtol v c = closedW v c / closedW v (grand n)) := by
-  refine ⟨fun hg => normVal_of_noscale (Or.inl hg) c, fun hg => ?_⟩
-  rcases how with hz | hlt
-  · exact absurd hz hg
-  · exact normVal_of_scale hg (not_additive_of_lt hlt) c
+/-- for `0 ≤ rtol` an exactly additive game passes the guard -/
+theorem additive_of_surplus_zero (hr : 0 ≤ rtol) (hg : closedW v (grand n) = 0) : Additive n rtol v := by
+  unfold Additive
+  rw [hg, abs_zero]
+  exact mul_nonneg hr (abs_nonneg _)
 
+/-- with `rtol = 0` the guard is the exact test `w(N) = 0` -/
+theorem additive_zero_iff : Additive n (0 : α) v ↔ closedW v (grand n) = 0 := by
+  unfold Additive
+  rw [zero_mul, abs_nonpos_iff]
+
+/-- the normal form of a superadditive game is identically zero iff … the guard fired or `w(N) = 0` -/
+theorem normVal_zero_of (h : SA n v) (h0 : v 0 = 0)
+    (hz : closedW v (grand n) = 0 ∨ Additive n rtol v) {c : Nat} (hc : c < 2 ^ n) : normVal n rtol v c = 0 := by
+  by_cases ha : Additive n rtol v
+  · exact normVal_of_additive ha c
+  · have hg := hz.resolve_right ha
+    rw [normVal_of_zero hg ha, closedW_zero_of_grand_zero h h0 hg c hc]
+
+/-- outside the tolerance window the closed form is the exact normalisation: `w / w(N)` … -/
 theorem normVal_of_ne
     (how : closedW v (grand n) = 0 ∨ rtol * |∑ i ∈ range n, v (2 ^ i)| < closedW v (grand n))
     (hg : closedW v (grand n) ≠ 0) (c : Nat) :
-    normVal n rtol v c = closedW v c / closedW v (grand n) := (normVal_out_of_window how c).2 hg
+    normVal n rtol v c = closedW v c / closedW v (grand n) :=
+  normVal_of_scale hg (not_additive_of_lt (how.resolve_left hg)) c
 
-theorem normVal_of_eq (hg : closedW v (grand n) = 0) (c : Nat) : normVal n rtol v c = closedW v c :=
-  normVal_of_noscale (Or.inl hg) c
+/-- … or, for an exactly additive superadditive game, identically 0 -/
+theorem normVal_of_eq (h : SA n v) (h0 : v 0 = 0) (hg : closedW v (grand n) = 0) {c : Nat} (hc : c < 2 ^ n) :
+    normVal n rtol v c = 0 := normVal_zero_of h h0 (Or.inl hg) hc
 
-/-- with `rtol = 0` the window is empty: the closed form is the exact normalisation of every game -/
+omit [IsStrictOrderedRing α] in
+/-- above the window -/
+theorem normVal_above (hlt : rtol * |∑ i ∈ range n, v (2 ^ i)| < closedW v (grand n))
+    (hg : closedW v (grand n) ≠ 0) (c : Nat) : normVal n rtol v c = closedW v c / closedW v (grand n) :=
+  normVal_of_scale hg (not_additive_of_lt hlt) c
+
+/-- with `rtol = 0` the window is empty: the closed form is the exact normalisation, with an exactly additive
+    (`w(N) = 0`) game sent to 0 -/
 theorem normVal_exact (c : Nat) :
-    normVal n (0 : α) v c =
-      if closedW v (grand n) = 0 then closedW v c else closedW v c / closedW v (grand n) := by
-  have hA : Additive n (0 : α) v ↔ closedW v (grand n) = 0 := by
-    unfold Additive
-    rw [zero_mul, abs_nonpos_iff]
+    normVal n (0 : α) v c = if closedW v (grand n) = 0 then 0 else closedW v c / closedW v (grand n) := by
   by_cases hg : closedW v (grand n) = 0
-  · rw [if_pos hg, normVal_of_noscale (Or.inl hg)]
-  · rw [if_neg hg, normVal_of_scale hg (fun ha => hg (hA.mp ha))]
+  · rw [if_pos hg, normVal_of_additive (additive_zero_iff.mpr hg)]
+  · rw [if_neg hg, normVal_of_scale hg (fun ha => hg (additive_zero_iff.mp ha))]
 
 /-- every singleton 0 (whatever `rtol` is) -/
 theorem normVal_singleton {i : Nat} (hi : i < n) : normVal n rtol v (2 ^ i) = 0 := by
   unfold normVal
-  split <;> simp [closedW_singleton hi v]
+  split
+  · rfl
+  · split <;> simp [closedW_singleton hi v]
 
 theorem normVal_empty (h0 : v 0 = 0) : normVal n rtol v 0 = 0 := by
   unfold normVal
-  split <;> simp [closedW_empty, h0]
-
-/-- non-negative (whatever `rtol` is) -/
-theorem normVal_nonneg (h : SA n v) (h0 : v 0 = 0) {c : Nat} (hc : c < 2 ^ n) : 0 ≤ normVal n rtol v c := by
-  unfold normVal
   split
-  · exact closedW_nonneg h h0 c hc
-  · exact div_nonneg (closedW_nonneg h h0 c hc) (closedW_nonneg h h0 _ (grand_lt n))
+  · rfl
+  · split <;> simp [closedW_empty, h0]
 
-/-- superadditive again (whatever `rtol` is: the unscaled `w` is superadditive too) -/
+/-- every value in [0, 1] (whatever `rtol` is) -/
+theorem normVal_unit (h : SA n v) (h0 : v 0 = 0) {c : Nat} (hc : c < 2 ^ n) :
+    0 ≤ normVal n rtol v c ∧ normVal n rtol v c ≤ 1 := by
+  by_cases hz : closedW v (grand n) = 0 ∨ Additive n rtol v
+  · rw [normVal_zero_of h h0 hz hc]
+    exact ⟨le_refl _, zero_le_one⟩
+  · have hg : closedW v (grand n) ≠ 0 := fun hg => hz (Or.inl hg)
+    have hpos : 0 < closedW v (grand n) :=
+      lt_of_le_of_ne (closedW_nonneg h h0 _ (grand_lt n)) (Ne.symm hg)
+    rw [normVal_of_scale hg (fun ha => hz (Or.inr ha))]
+    exact ⟨div_nonneg (closedW_nonneg h h0 c hc) hpos.le,
+      (div_le_one hpos).mpr (closedW_le_grand h h0 hc)⟩
+
+/-- superadditive again (whatever `rtol` is) -/
 theorem normVal_SA (h : SA n v) (h0 : v 0 = 0) : SA n (normVal n rtol v) := by
   intro a b ha hb hab
   have hsa := closedW_SA h a b ha hb hab
-  unfold normVal
-  split
-  · exact hsa
-  · rw [← add_div]
+  by_cases hz : closedW v (grand n) = 0 ∨ Additive n rtol v
+  · rw [normVal_zero_of h h0 hz ha, normVal_zero_of h h0 hz hb,
+      normVal_zero_of h h0 hz (or_lt_two_pow ha hb), add_zero]
+  · have hg : closedW v (grand n) ≠ 0 := fun hg => hz (Or.inl hg)
+    have hna : ¬ Additive n rtol v := fun ha => hz (Or.inr ha)
+    rw [normVal_of_scale hg hna, normVal_of_scale hg hna, normVal_of_scale hg hna, ← add_div]
     exact div_le_div_of_nonneg_right hsa (closedW_nonneg h h0 _ (grand_lt n))
 
-/-- every value in [0, 1] — outside the tolerance window -/
-theorem normVal_unit (h : SA n v) (h0 : v 0 = 0)
-    (how : closedW v (grand n) = 0 ∨ rtol * |∑ i ∈ range n, v (2 ^ i)| < closedW v (grand n))
-    {c : Nat} (hc : c < 2 ^ n) :
-    0 ≤ normVal n rtol v c ∧ normVal n rtol v c ≤ 1 := by
-  refine ⟨normVal_nonneg h h0 hc, ?_⟩
-  by_cases hg : closedW v (grand n) = 0
-  · rw [normVal_of_eq hg, closedW_zero_of_grand_zero h h0 hg c hc]
-    exact zero_le_one
-  · have hpos : 0 < closedW v (grand n) :=
-      lt_of_le_of_ne (closedW_nonneg h h0 _ (grand_lt n)) (Ne.symm hg)
-    rw [normVal_of_ne how hg]
-    exact (div_le_one hpos).mpr (closedW_le_grand h h0 hc)
-
-/-- grand coalition 1 — or the game was additive and the result is identically 0 — outside the window -/
-theorem normVal_grand (h : SA n v) (h0 : v 0 = 0)
-    (how : closedW v (grand n) = 0 ∨ rtol * |∑ i ∈ range n, v (2 ^ i)| < closedW v (grand n)) :
-    normVal n rtol v (grand n) = 1 ∨
-      (closedW v (grand n) = 0 ∧ ∀ c, c < 2 ^ n → normVal n rtol v c = 0) := by
-  by_cases hg : closedW v (grand n) = 0
+/-- grand coalition 1 — or the game is additive (exactly, or up to `rtol`) and the result is identically 0;
+    the two cases exclude each other -/
+theorem normVal_grand (h : SA n v) (h0 : v 0 = 0) :
+    (normVal n rtol v (grand n) = 1 ∧ closedW v (grand n) ≠ 0 ∧ ¬ Additive n rtol v) ∨
+      ((closedW v (grand n) = 0 ∨ Additive n rtol v) ∧ ∀ c, c < 2 ^ n → normVal n rtol v c = 0) := by
+  by_cases hz : closedW v (grand n) = 0 ∨ Additive n rtol v
   · right
-    exact ⟨hg, fun c hc => by rw [normVal_of_eq hg, closedW_zero_of_grand_zero h h0 hg c hc]⟩
+    exact ⟨hz, fun c hc => normVal_zero_of h h0 hz hc⟩
   · left
-    rw [normVal_of_ne how hg, div_self hg]
+    have hg : closedW v (grand n) ≠ 0 := fun hg => hz (Or.inl hg)
+    have hna : ¬ Additive n rtol v := fun ha => hz (Or.inr ha)
+    exact ⟨by rw [normVal_of_scale hg hna, div_self hg], hg, hna⟩
 
-/-- **C15, first sentence, about the code's own loop.**  For a complete table holding a superadditive game with
-    `v ∅ = 0` that is NOT in the tolerance window of the repaired code — `w(N) = 0` (exactly additive) or
-    `rtol·|Σ_i v{i}| < w(N)` — `_normalize_icg` succeeds and the resulting (complete) table has every singleton 0,
-    every value in [0,1], grand coalition 1 — or is identically 0, which happens exactly in the additive case
-    `w(N) = 0` — and is superadditive again.
-
-    The hypothesis `how` cannot be dropped for `rtol > 0`: inside the window `0 < w(N) ≤ rtol·|Σ_i v{i}|` the
-    repaired code deliberately treats the surplus as a rounding residue and returns the unscaled `w`, whose
-    values lie in `[0, w(N)] ⊆ [0, rtol·|Σ_i v{i}|]` and whose grand value is `w(N)`, neither 1 (unless
-    `w(N) = 1` by accident) nor 0 — see `window_behaviour`.  No sign condition on `rtol` is needed. -/
-theorem normalize_property (rtol : α) (t : Table α) (hf : FullOn n t) (h : SA n t.lo) (h0 : t.lo 0 = 0)
-    (how : closedW t.lo (grand n) = 0 ∨
-      rtol * |∑ i ∈ range n, t.lo (2 ^ i)| < closedW t.lo (grand n)) :
+/-- **C15, first sentence, about the code's own loop — for every tolerance `rtol`, no window hypothesis.**
+    For a complete table holding a superadditive game with `v ∅ = 0` the repaired `_normalize_icg` succeeds and
+    the resulting (complete) table has every singleton 0, every value in [0,1], is superadditive again, and has
+    grand coalition 1 — or is identically 0, which happens exactly when the game is additive: exactly
+    (`w(N) = 0`) or up to the tolerance (`Additive`: `|w(N)| ≤ rtol·|Σ_i v{i}|`).
+    (For `0 ≤ rtol`, `w(N) = 0` implies `Additive`: `normalize_property_tol`.) -/
+theorem normalize_property (rtol : α) (t : Table α) (hf : FullOn n t) (h : SA n t.lo) (h0 : t.lo 0 = 0) :
     ∃ t', normalizeIcg rtol t = .ok t' ∧ FullOn n t' ∧
       (∀ i, i < n → t'.lo (2 ^ i) = 0) ∧
       (∀ c, c < 2 ^ n → 0 ≤ t'.lo c ∧ t'.lo c ≤ 1) ∧
-      (t'.lo (grand n) = 1 ∨ (closedW t.lo (grand n) = 0 ∧ ∀ c, c < 2 ^ n → t'.lo c = 0)) ∧
+      (t'.lo (grand n) = 1 ∨
+        ((closedW t.lo (grand n) = 0 ∨ Additive n rtol t.lo) ∧ ∀ c, c < 2 ^ n → t'.lo c = 0)) ∧
       SA n t'.lo := by
   obtain ⟨t', hok, hf', hlo⟩ := normalizeIcg_closed rtol t hf
   refine ⟨t', hok, hf', ?_, ?_, ?_, ?_⟩
   · intro i hi
     rw [hlo _ (two_pow_lt_two_pow hi)]; exact normVal_singleton hi
   · intro c hc
-    rw [hlo c hc]; exact normVal_unit h h0 how hc
-  · rcases normVal_grand (n := n) h h0 how with hg | ⟨hg, hz⟩
+    rw [hlo c hc]; exact normVal_unit h h0 hc
+  · rcases normVal_grand (n := n) (rtol := rtol) h h0 with ⟨hg, _, _⟩ | ⟨hg, hz⟩
     · left; rw [hlo _ (grand_lt n)]; exact hg
     · right; exact ⟨hg, fun c hc => by rw [hlo c hc]; exact hz c hc⟩
   · intro a b ha hb hab
     rw [hlo a ha, hlo b hb, hlo _ (or_lt_two_pow ha hb)]
     exact normVal_SA h h0 a b ha hb hab
 
-/-- **the old, unconditional statement is the case `rtol = 0`** (empty window: `0·|Σ| < w(N)` or `w(N) = 0`
-    for every superadditive game). -/
+/-- the same for a genuine tolerance `0 ≤ rtol`: grand coalition 1, or the game is additive up to `rtol` and the
+    normal form is identically 0 -/
+theorem normalize_property_tol (rtol : α) (hr : 0 ≤ rtol) (t : Table α) (hf : FullOn n t) (h : SA n t.lo)
+    (h0 : t.lo 0 = 0) :
+    ∃ t', normalizeIcg rtol t = .ok t' ∧ FullOn n t' ∧
+      (∀ i, i < n → t'.lo (2 ^ i) = 0) ∧
+      (∀ c, c < 2 ^ n → 0 ≤ t'.lo c ∧ t'.lo c ≤ 1) ∧
+      (t'.lo (grand n) = 1 ∨ (Additive n rtol t.lo ∧ ∀ c, c < 2 ^ n → t'.lo c = 0)) ∧
+      SA n t'.lo := by
+  obtain ⟨t', h1, h2, h3, h4, h5, h6⟩ := normalize_property rtol t hf h h0
+  refine ⟨t', h1, h2, h3, h4, h5.imp id (fun ⟨hz, hall⟩ => ⟨?_, hall⟩), h6⟩
+  exact hz.elim (additive_of_surplus_zero hr) id
+
+/-- **the old statement is the case `rtol = 0`** (the guard is then the exact test `w(N) = 0`). -/
 theorem normalize_property_exact (t : Table α) (hf : FullOn n t) (h : SA n t.lo) (h0 : t.lo 0 = 0) :
     ∃ t', normalizeIcg (0 : α) t = .ok t' ∧ FullOn n t' ∧
       (∀ i, i < n → t'.lo (2 ^ i) = 0) ∧
       (∀ c, c < 2 ^ n → 0 ≤ t'.lo c ∧ t'.lo c ≤ 1) ∧
       (t'.lo (grand n) = 1 ∨ (closedW t.lo (grand n) = 0 ∧ ∀ c, c < 2 ^ n → t'.lo c = 0)) ∧
       SA n t'.lo := by
-  apply normalize_property (0 : α) t hf h h0
-  rcases (closedW_nonneg h h0 _ (grand_lt n)).lt_or_eq with hpos | hz
-  · right; rwa [zero_mul]
-  · left; exact hz.symm
+  obtain ⟨t', h1, h2, h3, h4, h5, h6⟩ := normalize_property (0 : α) t hf h h0
+  refine ⟨t', h1, h2, h3, h4, h5.imp id (fun ⟨hz, hall⟩ => ⟨?_, hall⟩), h6⟩
+  exact hz.elim id additive_zero_iff.mp
 
-/-- **inside the tolerance window** `0 < w(N) ≤ rtol·|Σ_i v{i}|` the repaired `_normalize_icg` succeeds and leaves
-    the UNSCALED game `w = v − Σ singletons` in the table: every singleton 0, superadditive, every value in
-    `[0, w(N)]` and hence in `[0, rtol·|Σ_i v{i}|]` (a "rounding residue" relative to the singleton total), grand
-    coalition `w(N)`.  So of the property's clauses only "values ≤ 1" and "grand coalition 1 or identically 0"
-    can fail, and the latter holds iff `w(N) = 1`. -/
+/-- **inside the tolerance window** `0 < w(N) ≤ rtol·|Σ_i v{i}|` the game is not additive, but the repaired
+    `_normalize_icg` treats its surplus as a rounding residue: it succeeds and leaves the identically-zero game
+    (so the grand coalition is 0, not 1).  What is discarded is `w = v − Σ singletons`, every value of which lies
+    in `[0, w(N)] ⊆ [0, rtol·|Σ_i v{i}|]`. -/
 theorem window_behaviour (rtol : α) (t : Table α) (hf : FullOn n t) (h : SA n t.lo) (h0 : t.lo 0 = 0)
     (hpos : 0 < closedW t.lo (grand n))
     (hwin : closedW t.lo (grand n) ≤ rtol * |∑ i ∈ range n, t.lo (2 ^ i)|) :
     ∃ t', normalizeIcg rtol t = .ok t' ∧ FullOn n t' ∧
-      (∀ c, c < 2 ^ n → t'.lo c = closedW t.lo c) ∧
-      (∀ i, i < n → t'.lo (2 ^ i) = 0) ∧
-      (∀ c, c < 2 ^ n → 0 ≤ t'.lo c ∧ t'.lo c ≤ closedW t.lo (grand n) ∧
-        t'.lo c ≤ rtol * |∑ i ∈ range n, t.lo (2 ^ i)|) ∧
-      t'.lo (grand n) = closedW t.lo (grand n) ∧
-      ((t'.lo (grand n) = 1 ∨ ∀ c, c < 2 ^ n → t'.lo c = 0) ↔ closedW t.lo (grand n) = 1) ∧
-      SA n t'.lo := by
+      (∀ c, c < 2 ^ n → t'.lo c = 0) ∧
+      (∀ c, c < 2 ^ n → 0 ≤ closedW t.lo c ∧ closedW t.lo c ≤ closedW t.lo (grand n) ∧
+        closedW t.lo c ≤ rtol * |∑ i ∈ range n, t.lo (2 ^ i)|) ∧
+      ¬ (∀ c, c < 2 ^ n → t.lo c = bsum n (fun i => t.lo (2 ^ i)) c) := by
   obtain ⟨t', hok, hf', hlo⟩ := normalizeIcg_closed rtol t hf
   have hadd : Additive n rtol t.lo := (additive_iff_le h h0).mpr hwin
-  have hW : ∀ c, c < 2 ^ n → t'.lo c = closedW t.lo c := fun c hc => by
-    rw [hlo c hc, normVal_of_noscale (Or.inr hadd)]
-  have hgr : t'.lo (grand n) = closedW t.lo (grand n) := hW _ (grand_lt n)
-  refine ⟨t', hok, hf', hW, ?_, ?_, hgr, ?_, ?_⟩
-  · intro i hi
-    rw [hW _ (two_pow_lt_two_pow hi)]; exact closedW_singleton hi _
+  refine ⟨t', hok, hf', fun c hc => by rw [hlo c hc, normVal_of_additive hadd], ?_, ?_⟩
   · intro c hc
-    rw [hW c hc]
     exact ⟨closedW_nonneg h h0 c hc, closedW_le_grand h h0 hc, le_trans (closedW_le_grand h h0 hc) hwin⟩
-  · rw [hgr]
-    constructor
-    · rintro (h1 | hz)
-      · exact h1
-      · have := hz _ (grand_lt n)
-        rw [hgr] at this
-        exact absurd this hpos.ne'
-    · exact Or.inl
-  · intro a b ha hb hab
-    rw [hW a ha, hW b hb, hW _ (or_lt_two_pow ha hb)]
-    exact closedW_SA h a b ha hb hab
+  · intro hall
+    have := hall _ (grand_lt n)
+    rw [closedW_eq (grand_lt n), this, sub_self] at hpos
+    exact lt_irrefl _ hpos
 
 end ordered
 
@@ -554,22 +581,22 @@ theorem additive_graph_iff (g : GraphGame α) (rtol : α) :
     Finset.sum_eq_zero (fun i _ => graphValue_singleton g i)
   rw [this, abs_zero, mul_zero, abs_nonpos_iff]
 
-/-- the closed form on the value table of a graph game does not depend on `rtol` -/
+/-- the closed form on the value table of a graph game does not depend on `rtol`: 0 when the grand value is 0,
+    `value / grand value` otherwise -/
 theorem normVal_graph (g : GraphGame α) (rtol : α) {c : Nat} (hc : c < 2 ^ g.n) :
     normVal g.n rtol (graphValue g) c =
-      if graphValue g (grand g.n) = 0 then graphValue g c else graphValue g c / graphValue g (grand g.n) := by
+      if graphValue g (grand g.n) = 0 then 0 else graphValue g c / graphValue g (grand g.n) := by
   by_cases hz : graphValue g (grand g.n) = 0
-  · rw [if_pos hz, normVal_of_noscale (Or.inl (by rw [closedW_graphValue g (grand_lt g.n)]; exact hz)),
-      closedW_graphValue g hc]
+  · rw [if_pos hz, normVal_of_additive ((additive_graph_iff g rtol).mpr hz)]
   · rw [if_neg hz, normVal_of_scale (by rw [closedW_graphValue g (grand_lt g.n)]; exact hz)
         (fun ha => hz ((additive_graph_iff g rtol).mp ha)),
       closedW_graphValue g hc, closedW_graphValue g (grand_lt g.n)]
 
-/-- **graph form = tabulated form.**  The values of the normalised graph game (`_normalize_graph_game` has no
-    tolerance guard) are the closed-form normalisation of its value table, for every `rtol` … -/
-theorem graphValue_normalizeGraph (rtol : α) (g : GraphGame α) {c : Nat} (hc : c < 2 ^ g.n) :
-    graphValue (normalizeGraph g) c = normVal g.n rtol (graphValue g) c := by
-  rw [normVal_graph g rtol hc]
+omit [LinearOrder α] [IsStrictOrderedRing α] [DecidableLE α] in
+/-- `_normalize_graph_game` in closed form (it has no tolerance guard): nothing happens when the grand value is 0 -/
+theorem graphValue_normalizeGraph_eq (g : GraphGame α) {c : Nat} (hc : c < 2 ^ g.n) :
+    graphValue (normalizeGraph g) c =
+      if graphValue g (grand g.n) = 0 then graphValue g c else graphValue g c / graphValue g (grand g.n) := by
   unfold normalizeGraph
   by_cases hz : graphValue g (grand g.n) = 0
   · simp [hz]
@@ -587,12 +614,39 @@ theorem graphValue_normalizeGraph (rtol : α) (g : GraphGame α) {c : Nat} (hc :
     rw [this, listSum_map_div]
     rfl
 
+omit [LinearOrder α] [IsStrictOrderedRing α] [DecidableLE α] [DecidableEq α] in
+theorem graphValue_empty (g : GraphGame α) : graphValue g 0 = 0 := by
+  simp [graphValue, players, playersFrom, pairs, listSum]
+
+/-- a superadditive graph game whose grand value is 0 is identically 0 -/
+theorem graph_zero_of_grand_zero (g : GraphGame α) (h : SA g.n (graphValue g))
+    (hz : graphValue g (grand g.n) = 0) {c : Nat} (hc : c < 2 ^ g.n) : graphValue g c = 0 := by
+  have := closedW_zero_of_grand_zero h (graphValue_empty g)
+    (by rw [closedW_graphValue g (grand_lt g.n)]; exact hz) c hc
+  rwa [closedW_graphValue g hc] at this
+
+/-- **graph form = tabulated form.**  The values of the normalised graph game are the closed-form normalisation
+    of its value table, for every `rtol`.  Superadditivity (the property's scope) is needed only when the grand
+    value is 0: `_normalize_graph_game` then leaves the game alone while the table normaliser stores zeros — the
+    same thing exactly because a superadditive game with grand value 0 and zero singletons is identically 0. -/
+theorem graphValue_normalizeGraph (rtol : α) (g : GraphGame α) (h : SA g.n (graphValue g)) {c : Nat}
+    (hc : c < 2 ^ g.n) : graphValue (normalizeGraph g) c = normVal g.n rtol (graphValue g) c := by
+  rw [normVal_graph g rtol hc, graphValue_normalizeGraph_eq g hc]
+  by_cases hz : graphValue g (grand g.n) = 0
+  · rw [if_pos hz, if_pos hz, graph_zero_of_grand_zero g h hz hc]
+  · rw [if_neg hz, if_neg hz]
+
+/-- without superadditivity the two forms still agree whenever the grand value is not 0 -/
+theorem graphValue_normalizeGraph_of_ne (rtol : α) (g : GraphGame α) (hz : graphValue g (grand g.n) ≠ 0)
+    {c : Nat} (hc : c < 2 ^ g.n) : graphValue (normalizeGraph g) c = normVal g.n rtol (graphValue g) c := by
+  rw [normVal_graph g rtol hc, graphValue_normalizeGraph_eq g hc, if_neg hz, if_neg hz]
+
 /-- … which is what the repaired `_normalize_icg` leaves in the table holding the graph game's values. -/
-theorem graph_and_table_agree (rtol : α) (g : GraphGame α) :
+theorem graph_and_table_agree (rtol : α) (g : GraphGame α) (h : SA g.n (graphValue g)) :
     ∃ t', normalizeIcg rtol (fullTable g.n (graphValue g)) = .ok t' ∧ FullOn g.n t' ∧
       ∀ c, c < 2 ^ g.n → t'.lo c = graphValue (normalizeGraph g) c := by
   obtain ⟨t', hok, hf, hlo⟩ := normalizeIcg_closed rtol _ (fullOn_fullTable g.n (graphValue g))
-  exact ⟨t', hok, hf, fun c hc => by rw [hlo c hc, graphValue_normalizeGraph rtol g hc]; rfl⟩
+  exact ⟨t', hok, hf, fun c hc => by rw [hlo c hc, graphValue_normalizeGraph rtol g h hc]; rfl⟩
 
 end graphOrdered
 
@@ -713,9 +767,8 @@ theorem denormalize_normalize_closed {n : Nat} (rtol : α) (t : Table α) (hf : 
 /-- **de-normalising restores the game — outside the tolerance window.**  `normalize_game` on a complete
     superadditive table with `w(N) = 0 ∨ rtol·|Σ_i v{i}| < w(N)` succeeds and returns `(info, normalised table)`;
     `denormalize_game` with that info succeeds and restores every value — in the scaling branch (`w(N) ≠ 0`) and
-    in the exactly additive branch (`w(N) = 0`, where the stored grand value is 0 and `value·0 + Σ singletons` is
-    the original value because the game is additive).  Inside the window the statement is FALSE unless
-    `w(N) = 1`: see `denormalize_window` and the concrete instance `exWin` in section 5. -/
+    in the exactly additive branch (`w(N) = 0`, where the stored values are 0 and `0·0 + Σ singletons` is the
+    original value because the game is additive).  Inside the window see `denormalize_window`. -/
 theorem denormalize_normalize {n : Nat} (rtol : α) (t : Table α) (hf : FullOn n t) (h : SA n t.lo)
     (h0 : t.lo 0 = 0)
     (how : closedW t.lo (grand n) = 0 ∨
@@ -727,7 +780,7 @@ theorem denormalize_normalize {n : Nat} (rtol : α) (t : Table α) (hf : FullOn 
   intro c hc
   rw [hlo'' c hc]
   by_cases hg : closedW t.lo (grand n) = 0
-  · rw [normVal_of_eq hg, closedW_zero_of_grand_zero h h0 hg c hc, zero_mul, zero_add]
+  · rw [normVal_of_eq h h0 hg hc, zero_mul, zero_add]
     exact (additive_of_grand_zero h h0 hg c hc).symm
   · rw [normVal_of_ne how hg, div_mul_cancel₀ _ hg, closedW_eq hc, sub_add_cancel]
 
@@ -741,39 +794,61 @@ theorem denormalize_normalize_exact {n : Nat} (t : Table α) (hf : FullOn n t) (
   · right; rwa [zero_mul]
   · left; exact hz.symm
 
-/-- **inside the tolerance window the round trip is not exact.**  With `0 < w(N) ≤ rtol·|Σ_i v{i}|` both calls
-    still succeed, but the table holds the unscaled `w` while the returned information still says "scaled by
-    `w(N)`", so `denormalize_game` produces `w c · w(N) + Σ_{i∈c} v{i} = v c + w c · (w(N) − 1)`.  The error at
-    `c` is `w c · (w(N) − 1)`, at most `w(N)·|w(N) − 1|` in absolute value, and the game is restored iff
-    `w(N) = 1`.  (For a float rounding residue `w(N) ≈ 1e-17` the error is far below rounding; for a game with
-    huge singletons and a genuine surplus `1 < w(N) ≤ 1e-9·|Σ|` it is not.) -/
+omit [IsStrictOrderedRing α] in
+/-- whenever the guard fires (no superadditivity needed) the normal form is 0 and `denormalize_game` returns the
+    additive part of the game: `0 · w(N) + Σ_{i∈c} v{i} = v c − w c` -/
+theorem denormalize_additive {n : Nat} (rtol : α) (t : Table α) (hf : FullOn n t)
+    (ha : Additive n rtol t.lo) :
+    ∃ info t' t'', normalizeGame rtol t = .ok (info, t') ∧ denormalize t' info = .ok t'' ∧ FullOn n t'' ∧
+      ∀ c, c < 2 ^ n → t''.lo c = t.lo c - closedW t.lo c := by
+  obtain ⟨t', t'', hnorm, hden, hf'', hlo''⟩ := denormalize_normalize_closed rtol t hf
+  refine ⟨_, t', t'', hnorm, hden, hf'', ?_⟩
+  intro c hc
+  rw [hlo'' c hc, normVal_of_additive ha, zero_mul, zero_add, closedW_eq hc, sub_sub_cancel]
+
+/-- **inside the tolerance window the round trip is exact up to the tolerance.**  With
+    `0 < w(N) ≤ rtol·|Σ_i v{i}|` both calls succeed, the normal form is 0, and `denormalize_game` produces
+    `Σ_{i∈c} v{i} = v c − w c`: the discarded surplus share `w c` is the error, and
+    `0 ≤ w c ≤ w(N) ≤ rtol·|Σ_i v{i}|`.  The game itself is not restored (`w(N) > 0`). -/
 theorem denormalize_window {n : Nat} (rtol : α) (t : Table α) (hf : FullOn n t) (h : SA n t.lo)
     (h0 : t.lo 0 = 0) (hpos : 0 < closedW t.lo (grand n))
     (hwin : closedW t.lo (grand n) ≤ rtol * |∑ i ∈ range n, t.lo (2 ^ i)|) :
     ∃ info t' t'', normalizeGame rtol t = .ok (info, t') ∧ denormalize t' info = .ok t'' ∧ FullOn n t'' ∧
-      (∀ c, c < 2 ^ n → t''.lo c = t.lo c + closedW t.lo c * (closedW t.lo (grand n) - 1)) ∧
-      (∀ c, c < 2 ^ n → |t''.lo c - t.lo c| ≤ closedW t.lo (grand n) * |closedW t.lo (grand n) - 1|) ∧
-      ((∀ c, c < 2 ^ n → t''.lo c = t.lo c) ↔ closedW t.lo (grand n) = 1) := by
-  obtain ⟨t', t'', hnorm, hden, hf'', hlo''⟩ := denormalize_normalize_closed rtol t hf
-  have hadd : Additive n rtol t.lo := (additive_iff_le h h0).mpr hwin
-  have hval : ∀ c, c < 2 ^ n → t''.lo c = t.lo c + closedW t.lo c * (closedW t.lo (grand n) - 1) := by
-    intro c hc
-    rw [hlo'' c hc, normVal_of_noscale (Or.inr hadd), closedW_eq hc]
-    ring
-  refine ⟨_, t', t'', hnorm, hden, hf'', hval, ?_, ?_⟩
+      (∀ c, c < 2 ^ n → t''.lo c = t.lo c - closedW t.lo c) ∧
+      (∀ c, c < 2 ^ n → 0 ≤ closedW t.lo c ∧ closedW t.lo c ≤ closedW t.lo (grand n) ∧
+        closedW t.lo c ≤ rtol * |∑ i ∈ range n, t.lo (2 ^ i)|) ∧
+      t''.lo (grand n) ≠ t.lo (grand n) := by
+  obtain ⟨info, t', t'', hnorm, hden, hf'', hval⟩ :=
+    denormalize_additive rtol t hf ((additive_iff_le h h0).mpr hwin)
+  refine ⟨info, t', t'', hnorm, hden, hf'', hval, ?_, ?_⟩
   · intro c hc
-    rw [hval c hc, add_sub_cancel_left, abs_mul, abs_of_nonneg (closedW_nonneg h h0 c hc)]
-    exact mul_le_mul_of_nonneg_right (closedW_le_grand h h0 hc) (abs_nonneg _)
-  · constructor
-    · intro hall
-      have := hall _ (grand_lt n)
-      rw [hval _ (grand_lt n)] at this
-      have hm : closedW t.lo (grand n) * (closedW t.lo (grand n) - 1) = 0 := by linarith
-      rcases mul_eq_zero.mp hm with hz | h1
-      · exact absurd hz hpos.ne'
-      · linarith
-    · intro h1 c hc
-      rw [hval c hc, h1, sub_self, mul_zero, add_zero]
+    exact ⟨closedW_nonneg h h0 c hc, closedW_le_grand h h0 hc, le_trans (closedW_le_grand h h0 hc) hwin⟩
+  · rw [hval _ (grand_lt n)]
+    intro he
+    have : closedW t.lo (grand n) = 0 := by linarith
+    exact hpos.ne' this
+
+/-- **the round trip for every superadditive game and every tolerance `0 ≤ rtol`:** both calls succeed and every
+    restored value is within `rtol·|Σ_i v{i}|` of the original (exactly equal outside the window). -/
+theorem denormalize_normalize_bound {n : Nat} (rtol : α) (hr : 0 ≤ rtol) (t : Table α) (hf : FullOn n t)
+    (h : SA n t.lo) (h0 : t.lo 0 = 0) :
+    ∃ info t' t'', normalizeGame rtol t = .ok (info, t') ∧ denormalize t' info = .ok t'' ∧ FullOn n t'' ∧
+      ∀ c, c < 2 ^ n → |t''.lo c - t.lo c| ≤ rtol * |∑ i ∈ range n, t.lo (2 ^ i)| := by
+  by_cases hwin : 0 < closedW t.lo (grand n) ∧
+      closedW t.lo (grand n) ≤ rtol * |∑ i ∈ range n, t.lo (2 ^ i)|
+  · obtain ⟨info, t', t'', h1, h2, h3, hval, hb, _⟩ := denormalize_window rtol t hf h h0 hwin.1 hwin.2
+    refine ⟨info, t', t'', h1, h2, h3, fun c hc => ?_⟩
+    rw [hval c hc, sub_sub_cancel_left, abs_neg, abs_of_nonneg (hb c hc).1]
+    exact (hb c hc).2.2
+  · have how : closedW t.lo (grand n) = 0 ∨
+        rtol * |∑ i ∈ range n, t.lo (2 ^ i)| < closedW t.lo (grand n) := by
+      rcases (closedW_nonneg h h0 _ (grand_lt n)).lt_or_eq with hpos | hz
+      · right; exact not_le.mp (fun hle => hwin ⟨hpos, hle⟩)
+      · left; exact hz.symm
+    obtain ⟨info, t', t'', h1, h2, h3, hval⟩ := denormalize_normalize rtol t hf h h0 how
+    refine ⟨info, t', t'', h1, h2, h3, fun c hc => ?_⟩
+    rw [hval c hc, sub_self, abs_zero]
+    exact mul_nonneg hr (abs_nonneg _)
 
 /-- the graph representation: `_denormalize_graph_game ∘ _normalize_graph_game` restores every value of a
     superadditive graph game -/
@@ -791,13 +866,9 @@ theorem graph_denormalize_normalize (g : GraphGame α) (h : SA g.n (graphValue g
   have e : ∀ (G : GraphGame α), graphValue G c = listSum ((pairs (players c)).map (fun p => G.m p.1 p.2)) :=
     fun _ => rfl
   rw [e (denormalizeGraph _ _), List.map_congr_left key, listSum_map_mul, ← e (normalizeGraph g)]
-  rw [graphValue_normalizeGraph (0 : α) g hc, normVal_graph g (0 : α) hc]
-  have h0 : graphValue g 0 = 0 := by simp [graphValue, players, playersFrom, pairs, listSum]
+  rw [graphValue_normalizeGraph_eq g hc]
   by_cases hg : graphValue g (grand g.n) = 0
-  · have hz := closedW_zero_of_grand_zero h h0
-      (by rw [closedW_graphValue g (grand_lt g.n)]; exact hg) c hc
-    rw [closedW_graphValue g hc] at hz
-    rw [if_pos hg, hg, mul_zero, hz]
+  · rw [if_pos hg, hg, mul_zero, graph_zero_of_grand_zero g h hg hc]
   · rw [if_neg hg]
     exact div_mul_cancel₀ _ hg
 
@@ -859,11 +930,12 @@ theorem exWin_in : 0 < closedW exWin (grand 2) ∧
   rw [exWin_surplus, sum_range_two]
   norm_num [exWin, defaultRtol]
 
+theorem defaultRtol_nonneg : (0 : ℚ) ≤ defaultRtol := by decide +kernel
+
 /-- `normalize_property` and `denormalize_normalize` apply to `exV` with the code's `rtol` … -/
 example : ∃ t', normalizeIcg defaultRtol (fullTable 2 exV) = .ok t' ∧ FullOn 2 t' ∧ SA 2 t'.lo := by
   obtain ⟨t', h1, h2, _, _, _, h6⟩ :=
     normalize_property defaultRtol (fullTable 2 exV) (fullOn_fullTable 2 exV) exV_SA (by simp [fullTable, exV])
-      exV_out
   exact ⟨t', h1, h2, h6⟩
 
 example : ∃ info t' t'', normalizeGame defaultRtol (fullTable 2 exV) = .ok (info, t') ∧
@@ -873,34 +945,45 @@ example : ∃ info t' t'', normalizeGame defaultRtol (fullTable 2 exV) = .ok (in
       (by simp [fullTable, exV]) exV_out
   exact ⟨info, t', t'', h1, h2, h4⟩
 
-/-- … `window_behaviour` and `denormalize_window` apply to `exWin` (their hypotheses are satisfiable): the
-    grand coalition of the result is 1024, not 1, and the round trip does not restore the game, -/
-example : ∃ t', normalizeIcg defaultRtol (fullTable 2 exWin) = .ok t' ∧ t'.lo (grand 2) = 1024 ∧
-    ¬ (t'.lo (grand 2) = 1 ∨ ∀ c, c < 2 ^ 2 → t'.lo c = 0) := by
-  obtain ⟨t', h1, _, _, _, _, h6, h7, _⟩ :=
+/-- … `normalize_property_tol`, `window_behaviour`, `denormalize_window` and `denormalize_normalize_bound` apply
+    to `exWin` (their hypotheses are satisfiable): the normal form is identically 0 although the game is not
+    additive, and the round trip returns the additive part, off by the surplus 1024 ≤ 1e-9·2^41 at `N`, -/
+example : ∃ t', normalizeIcg defaultRtol (fullTable 2 exWin) = .ok t' ∧ (∀ c, c < 2 ^ 2 → t'.lo c = 0) ∧
+    ¬ (∀ c, c < 2 ^ 2 → exWin c = bsum 2 (fun i => exWin (2 ^ i)) c) := by
+  obtain ⟨t', h1, _, h3, _, h5⟩ :=
     window_behaviour defaultRtol (fullTable 2 exWin) (fullOn_fullTable 2 exWin) exWin_SA
       (by simp [fullTable, exWin]) exWin_in.1 exWin_in.2
-  refine ⟨t', h1, by rw [h6]; exact exWin_surplus, fun hh => ?_⟩
-  have := h7.mp hh
-  rw [show (fullTable 2 exWin).lo = exWin from rfl, exWin_surplus] at this
-  norm_num at this
+  exact ⟨t', h1, h3, h5⟩
+
+example : ∃ t', normalizeIcg defaultRtol (fullTable 2 exWin) = .ok t' ∧
+    (t'.lo (grand 2) = 1 ∨ (Additive 2 defaultRtol exWin ∧ ∀ c, c < 2 ^ 2 → t'.lo c = 0)) := by
+  obtain ⟨t', h1, _, _, _, h5, _⟩ :=
+    normalize_property_tol defaultRtol defaultRtol_nonneg (fullTable 2 exWin) (fullOn_fullTable 2 exWin) exWin_SA
+      (by simp [fullTable, exWin])
+  exact ⟨t', h1, h5⟩
 
 example : ∃ info t' t'', normalizeGame defaultRtol (fullTable 2 exWin) = .ok (info, t') ∧
-    denormalize t' info = .ok t'' ∧ ¬ ∀ c, c < 2 ^ 2 → t''.lo c = exWin c := by
-  obtain ⟨info, t', t'', h1, h2, _, _, _, h6⟩ :=
+    denormalize t' info = .ok t'' ∧ t''.lo (grand 2) = exWin (grand 2) - 1024 := by
+  obtain ⟨info, t', t'', h1, h2, _, h4, _, _⟩ :=
     denormalize_window defaultRtol (fullTable 2 exWin) (fullOn_fullTable 2 exWin) exWin_SA
       (by simp [fullTable, exWin]) exWin_in.1 exWin_in.2
-  refine ⟨info, t', t'', h1, h2, fun hh => ?_⟩
-  have := h6.mp hh
-  rw [show (fullTable 2 exWin).lo = exWin from rfl, exWin_surplus] at this
-  norm_num at this
+  refine ⟨info, t', t'', h1, h2, ?_⟩
+  rw [h4 _ (grand_lt 2), show (fullTable 2 exWin).lo = exWin from rfl, exWin_surplus]
+
+example : ∃ info t' t'', normalizeGame defaultRtol (fullTable 2 exWin) = .ok (info, t') ∧
+    denormalize t' info = .ok t'' ∧
+    ∀ c, c < 2 ^ 2 → |t''.lo c - exWin c| ≤ defaultRtol * |∑ i ∈ range 2, exWin (2 ^ i)| := by
+  obtain ⟨info, t', t'', h1, h2, _, h4⟩ :=
+    denormalize_normalize_bound defaultRtol defaultRtol_nonneg (fullTable 2 exWin) (fullOn_fullTable 2 exWin)
+      exWin_SA (by simp [fullTable, exWin])
+  exact ⟨info, t', t'', h1, h2, h4⟩
 
 /-- … and the model, run by the kernel, gives [0, 0, 0, 1] with info (4, [1, 2]) (scaling branch), -/
 example : (match normalizeGame defaultRtol (fullTable 2 exV) with
     | .ok (info, t) => (info, (allCoalitions 2).map t.lo, (allCoalitions 2).map t.hi)
     | .error _ => ((0, []), [], [])) = ((4, [1, 2]), [0, 0, 0, 1], [0, 0, 0, 1]) := by decide +kernel
 
-/-- the additive branch: surplus 0, nothing is divided, the result is identically 0, -/
+/-- the additive branch: surplus 0, zeros are stored, -/
 example : (match normalizeGame defaultRtol (fullTable 2 exAdd) with
     | .ok (info, t) => (info, (allCoalitions 2).map t.lo)
     | .error _ => ((0, []), [])) = ((0, [-1, 2]), [0, 0, 0, 0]) := by decide +kernel
@@ -918,22 +1001,20 @@ example : (match normalizeGame defaultRtol (fullTable 2 exAdd) with
         | .error _ => [])
     | .error _ => []) = [0, -1, 2, 1] := by decide +kernel
 
-/-- **the window, run by the kernel with the code's own `rtol = 1e-9`:** `exWin` is returned unscaled with
-    info (2^10, [2^40, 2^40]) … -/
+/-- **the window, run by the kernel with the code's own `rtol = 1e-9`:** `exWin` normalises to the zero game
+    with info (2^10, [2^40, 2^40]) … -/
 example : (match normalizeGame defaultRtol (fullTable 2 exWin) with
     | .ok (info, t) => (info, (allCoalitions 2).map t.lo, (allCoalitions 2).map t.hi)
     | .error _ => ((0, []), [], [])) =
-    ((1024, [1099511627776, 1099511627776]), [0, 0, 0, 1024], [0, 0, 0, 1024]) := by decide +kernel
+    ((1024, [1099511627776, 1099511627776]), [0, 0, 0, 0], [0, 0, 0, 0]) := by decide +kernel
 
-/-- … and `denormalize_game` with that info yields v(N) = 2^41 + 2^20, not the original 2^41 + 2^10:
-    **the round trip fails inside the window** (the real code does the same: 2199024304128.0). -/
+/-- … and `denormalize_game` with that info yields v(N) = 2^41, the original 2^41 + 2^10 less the discarded
+    surplus (the real code does the same: 2199023255552.0). -/
 example : (match normalizeGame defaultRtol (fullTable 2 exWin) with
     | .ok (info, t) => (match denormalize t info with
         | .ok t' => (allCoalitions 2).map t'.lo
         | .error _ => [])
-    | .error _ => []) = [0, 1099511627776, 1099511627776, 2199024304128] := by decide +kernel
-
-example : (2199024304128 : ℚ) ≠ exWin 3 := by decide +kernel
+    | .error _ => []) = [0, 1099511627776, 1099511627776, 2199023255552] := by decide +kernel
 
 /-- the same game with `rtol = 0` (no window) is scaled and restored exactly -/
 example : (match normalizeGame (0 : ℚ) (fullTable 2 exWin) with
